@@ -115,22 +115,27 @@ pub fn pool(seed: u64) -> Pool {
         });
         texts.insert(name.to_string(), text);
     }
-    // m5: a second osu! map (a window of the osu! fixture: other density / conversion difficulty than m1)
+    // m5: a second osu! map (every 2nd object of a window of the osu! fixture: about 3 objects per second, conversion difficulty
+    // just below 4 where m1's is about 2); m6: the SAME objects under other HP / AR values (conversion difficulty above 4):
+    // equal in address-and-size terms, different in content
     if let Ok(t) = std::fs::read_to_string("/repo/resources/2785319.osu") {
         let ls: Vec<&str> = t.lines().collect();
         if let Some(ho) = ls.iter().position(|l| l.trim() == "[HitObjects]") {
-            // a dense window: its conversion difficulty class (> 4) differs from the one of the sparse synthetic m1 (about 2)
-            let n = 70usize;
+            let n = 140usize;
             let start = ho + 1 + (seed as usize * 53 + 200) % (ls.len() - ho - 1 - n).max(1);
             let mut keep: Vec<&str> = ls[..=ho].to_vec();
-            keep.extend(ls[start..(start + n).min(ls.len())].iter());
-            texts.insert("m5".to_string(), keep.join("\n"));
+            keep.extend(ls[start..(start + n).min(ls.len())].iter().step_by(2));
+            let m5 = keep.join("\n");
+            let m6: String = m5.lines().map(|l| if l.starts_with("HPDrainRate") { "HPDrainRate:10".to_string() } else if l.starts_with("ApproachRate") { "ApproachRate:7".to_string() } else { l.to_string() }).collect::<Vec<_>>().join("\n");
+            texts.insert("m5".to_string(), m5);
+            texts.insert("m6".to_string(), m6);
         }
     }
-    texts.entry("m5".to_string()).or_insert_with(|| {
+    if !texts.contains_key("m5") {
         let o = random_objs(&mut rng, "osu", 20);
-        concretize("osu", &o, &profile(seed as u32 + 5))
-    });
+        texts.insert("m5".to_string(), concretize("osu", &o, &profile(seed as u32 + 5)));
+        texts.insert("m6".to_string(), concretize("osu", &o, &profile(seed as u32 + 6)));
+    }
     let all = cfgs("quick");
     let mut c = HashMap::new();
     c.insert("A".to_string(), all[1].clone());
@@ -140,6 +145,9 @@ pub fn pool(seed: u64) -> Pool {
     c.insert("C".to_string(), Cfg { mods: 0, da_scroll: Some(2.0), od: Some((9.5, false)), random_seed: Some(7), ..Default::default() });
     // the lazer-only Invert mod (mania)
     c.insert("I".to_string(), Cfg::default().with_acronyms("IN"));
+    // settings that differ only in their mods (for reused builder values)
+    c.insert("N".to_string(), Cfg::default());
+    c.insert("T".to_string(), Cfg { mods: 64, ..Default::default() });
     // key mods (the target column count of a mania conversion)
     c.insert("K4".to_string(), Cfg::default().with_acronyms("4K"));
     c.insert("K7".to_string(), Cfg::default().with_acronyms("7K"));
@@ -173,12 +181,14 @@ pub struct Runner<'a> {
     pub pool: &'a Pool,
     pub maps: HashMap<String, Beatmap>,
     pub grads: HashMap<String, (GradualDifficulty, u64)>,
+    /// the builder value that "rcalc" calls keep using within one history
+    pub reused: Option<rosu_pp::Difficulty>,
 }
 
 impl<'a> Runner<'a> {
     pub fn new(pool: &'a Pool) -> Self {
         let maps = pool.texts.iter().map(|(k, t)| (k.clone(), Beatmap::from_bytes(t.as_bytes()).expect("pool map decodes"))).collect();
-        Self { pool, maps, grads: HashMap::new() }
+        Self { pool, maps, grads: HashMap::new(), reused: None }
     }
 
     /// Execute one call; returns (key, digest, panic).
@@ -195,6 +205,15 @@ impl<'a> Runner<'a> {
                 format!("{:?}", self.maps[&c.m].convert_ref(mode, &cfg.game_mods()).map(|m| m.into_owned()))
             }
             "calc" => format!("{:?}", d.calculate(&self.maps[&c.m])),
+            // a REUSED builder value: the Difficulty of the previous rcalc of this history gets the mods of these settings and
+            // calculates again (the value is otherwise default, so the result must be the one of a fresh builder with these mods)
+            "rcalc" => {
+                let prev = self.reused.take().unwrap_or_default();
+                let d2 = prev.mods(cfg.game_mods());
+                let out = format!("{:?}", d2.calculate(&self.maps[&c.m]));
+                self.reused = Some(d2);
+                out
+            }
             "strains" => format!("{:?}", d.strains(&self.maps[&c.m])),
             "perf" => format!("{:?}", Performance::new(&self.maps[&c.m]).difficulty(d.clone()).accuracy(94.2).misses(1).calculate()),
             "attrs" => format!("{:?}", self.maps[&c.m].attributes().difficulty(&d).build()),
@@ -240,6 +259,7 @@ pub fn record_main(args: &[String]) -> i32 {
         let fresh_maps = hi % 2 == 0;
         let run = |r: &mut Runner| -> Vec<String> {
             r.grads.clear();
+            r.reused = None;
             let mut out = Vec::new();
             for c in &h.calls {
                 let (key, dg, panic) = r.call(c);
